@@ -1,4 +1,5 @@
 import TracklibVerif.Lemmas.ObsTimeG
+import TracklibVerif.Lemmas.ObsTimeZone
 /-! `ObsTime.readUnixTime` on a NEGATIVE number of seconds (an instant before 1970), in exact arithmetic.
 
 The statement of C03 is about seconds since 1970; what this tree does before 1970 is nevertheless a definite
@@ -162,4 +163,12 @@ theorem ms_neg_bounds (trunc : α → Int) (htn : TruncNeg trunc) (f : α) (hf0 
   rw [trunc_neg trunc, Int.toNat_of_nonneg h0]
 
 end
+
+/-- the stamp this tree returns for "the well-formed stamp `t` moved by `d` milliseconds" (`d` a whole number of seconds
+in milliseconds), on BOTH sides of 1970: the integer model's stamp when the target is not before 1970, the negated
+decomposition (`negStamp`) when it is -/
+def shiftMsZ (t : Stamp) (d : Int) : StampZ :=
+  if 0 ≤ (toAbsMs t : Int) + d then (readUnixMs ((toAbsMs t : Int) + d).toNat).toZ
+  else negStamp ((-((toAbsMs t : Int) + d)).toNat / 1000) (-(((-((toAbsMs t : Int) + d)).toNat % 1000 : Nat) : Int))
+
 end TV.ObsTime
